@@ -675,15 +675,20 @@ func (c *Collection) FindOneAndDelete(ctx context.Context, filter interface{}, o
 
 	// delete documents
 	res, err := useTransaction(ctx, c.engine, true, func(txn *Transaction) (interface{}, error) {
+		// remember the state, the transaction may be a session transaction
+		// that lives on after a failed call
+		catalog, dirty := txn.state()
+
 		res, err := txn.Delete(c.handle, query, sort, 0, 1)
 		if err != nil {
 			return nil, err
 		}
 
-		// fail before the commit if the result cannot be projected
+		// undo the write and fail if the result cannot be projected
 		if projection != nil && len(res.Matched) > 0 {
 			_, err = mongokit.Project(res.Matched[0], projection)
 			if err != nil {
+				txn.restore(catalog, dirty)
 				return nil, err
 			}
 		}
@@ -788,15 +793,20 @@ func (c *Collection) FindOneAndReplace(ctx context.Context, filter, replacement 
 
 	// insert document
 	res, err := useTransaction(ctx, c.engine, true, func(txn *Transaction) (interface{}, error) {
+		// remember the state, the transaction may be a session transaction
+		// that lives on after a failed call
+		catalog, dirty := txn.state()
+
 		res, err := txn.Replace(c.handle, query, sort, repl, upsert)
 		if err != nil {
 			return nil, err
 		}
 
-		// fail before the commit if the result cannot be projected
+		// undo the write and fail if the result cannot be projected
 		if doc := returnedDocument(res, returnAfter); doc != nil && projection != nil {
 			_, err = mongokit.Project(doc, projection)
 			if err != nil {
+				txn.restore(catalog, dirty)
 				return nil, err
 			}
 		}
@@ -901,15 +911,20 @@ func (c *Collection) FindOneAndUpdate(ctx context.Context, filter, update interf
 
 	// update documents
 	res, err := useTransaction(ctx, c.engine, true, func(txn *Transaction) (interface{}, error) {
+		// remember the state, the transaction may be a session transaction
+		// that lives on after a failed call
+		catalog, dirty := txn.state()
+
 		res, err := txn.Update(c.handle, query, sort, upd, 0, 1, upsert, arrayFilters)
 		if err != nil {
 			return nil, err
 		}
 
-		// fail before the commit if the result cannot be projected
+		// undo the write and fail if the result cannot be projected
 		if doc := returnedDocument(res, returnAfter); doc != nil && projection != nil {
 			_, err = mongokit.Project(doc, projection)
 			if err != nil {
+				txn.restore(catalog, dirty)
 				return nil, err
 			}
 		}
